@@ -1,15 +1,15 @@
 #!/bin/bash
-# keep_mut2.sh <id> <n> <dst-n> [round]: store a round-2 seeded change under /verif/seeded/<id>-<dst-n>/
-id=$1; n=$2; dn=$3; src=/tmp/mut2/$id/$n; dst=/verif/seeded/$id-$dn
+# keep_mut2.sh <id> <n> <dst-n> [first_outcome] [srcdir] [round]: store a seeded change under /verif/seeded/<id>-<dst-n>/
+id=$1; n=$2; dn=$3; src=${5:-/tmp/mut2}/$id/$n; round=${6:-2}; dst=/verif/seeded/$id-$dn
 mkdir -p $dst
 cp $src/patch.diff $dst/patch.diff
 cp $src/demo_test.go $dst/demo_test.go.txt
 cp $src/demo_pkg.txt $dst/demo_pkg.txt
-python3 - $src/meta.json $dst/meta.json $id "${4:-}" <<'PY'
+python3 - $src/meta.json $dst/meta.json $id "${4:-}" $round <<'PY'
 import json,sys
 m=json.load(open(sys.argv[1]))
-out={"property":sys.argv[3],"round":2,"summary":m.get("summary"),"needs":m.get("needs"),"files":m.get("files"),
- "origin":"independent sub-agent (second round) given only the property text, the list of ideas already tried, and a scratch worktree",
+out={"property":sys.argv[3],"round":int(sys.argv[5]),"summary":m.get("summary"),"needs":m.get("needs"),"files":m.get("files"),
+ "origin":"independent sub-agent (round %s)"%sys.argv[5]+" given only the property text, the list of ideas already tried, and a scratch worktree",
  "confirmed_by":"/verif/tools/confirm_mut.sh in a scratch worktree: patch applies; go build ./... ok; existing tests of the touched packages and the demo package pass with the change; demo test passes on the clean tree and fails with the change",
  "first_outcome":sys.argv[4],
  "agent_ran":m.get("ran")}
